@@ -136,7 +136,7 @@ def gen_graph(rng, max_procs=6, max_items=4, allow_fanin=True, allow_leaf=True, 
                 is_ordered = False
             length = ln if length is None else min(length, ln)
         params = []
-        if rng.random() < 0.3:
+        if rng.random() < 0.3 and is_ordered:      # a second port on a merged stream would make the graph merge-sensitive
             params = ["p"]
             vals = ["v%d" % k for k in range(1, rng.randint(1, max_items) + 1)]
             if rng.random() < 0.5:
